@@ -36,13 +36,23 @@ NESTED_LOCALS = ["r?u=http://a/z", "http://other/x", "vocab",
 def gen_history(g, w, n_ops, probes=True):
     """run one random history on the implementation; returns list of oracle failures (dicts)"""
     r = g.rng
-    d = w.new_doc()
+    if r.random() < 0.2:
+        # namespaces handed to the constructor, some of them under a prefix the library binds itself
+        pool = [("xsd", "http://www.w3.org/2001/XMLSchema"), ("prov", "http://notprov/"), ("xsi", "urn:x:"), ("ex", "http://a/"),
+                ("foo", "http://other/"), ("ex", "http://a/b/")]
+        d = w.new_doc(r.sample(pool, r.randint(1, 3)))
+        ctor = True
+    else:
+        d = w.new_doc()
+        ctor = False
     scopes = [d]
     state = {d: {"delegated_bare": False}}
     handed = []          # (scope, QualifiedName)
     seen = set()
     failures = []
     flags = set()
+    if ctor:
+        flags.add("namespaces-given-to-the-constructor")
 
     def hand(c, q, via):
         if q is None:
